@@ -922,6 +922,179 @@ def binding_controls(ctx, traces):
 
 
 # --------------------------------------------------------------------------- entry
+# --------------------------------------------------------------------------- real processes (true parallelism)
+_MP_SIZE = 4096
+
+
+def _mp_content(v):
+    return (b"%06d\n" % v) * _MP_SIZE
+
+
+def _mp_classify(b):
+    if b is None:
+        return 0
+    if len(b) == 7 * _MP_SIZE and b == b[:7] * _MP_SIZE and b[:6].isdigit():
+        return int(b[:6])
+    return -3          # torn: neither a complete old nor a complete new content
+
+
+def _mp_lock_job(a, barrier, path, script, seed):
+    """worker process: writers through the lock protocol and readers of the protected file"""
+    import random
+    import time
+    from dulwich.file import FileLocked, GitFile
+    from .. import mp
+    rng = random.Random(seed)
+    recs = []
+    barrier.wait(60)
+    for (op, v) in script:
+        mp.spin(rng)
+        rec = {"a": a, "op": op, "v": v, "exc": False, "hs": 0, "he": 0, "res": 0}
+        rec["c"] = time.monotonic_ns()
+        if op == "read":
+            try:
+                with open(path, "rb") as f:
+                    rec["res"] = _mp_classify(f.read())
+            except FileNotFoundError:
+                rec["res"] = 0
+        else:
+            try:
+                f = GitFile(path, "wb")
+            except FileLocked:
+                rec["exc"] = True
+                rec["excname"] = "FileLocked"
+            else:
+                rec["hs"] = time.monotonic_ns()
+                data = _mp_content(v)
+                third = len(data) // 3
+                try:
+                    f.write(data[:third])
+                    mp.spin(rng, 150)
+                    f.write(data[third:2 * third])
+                    mp.spin(rng, 150)
+                    f.write(data[2 * third:])
+                    rec["he"] = time.monotonic_ns()
+                    if op == "commit":
+                        f.close()
+                    else:
+                        f.abort()
+                except Exception as e:
+                    rec["exc"] = True
+                    rec["excname"] = type(e).__name__
+                    if not rec["he"]:
+                        rec["he"] = time.monotonic_ns()
+        rec["r"] = time.monotonic_ns()
+        recs.append(rec)
+    return recs
+
+
+def mode_processes(ctx):
+    """3 real processes write one file through the lock protocol while reading it: Mutex on the hold intervals
+    (LockHist.tla), the file as an atomic register whose values are complete contents (RefsLin.tla)."""
+    import random
+    from .. import mp
+    pool = mp.Pool(3, {"lock": _mp_lock_job})
+    rng = random.Random(ctx.seed * 104729 + 7)
+    holds_tr, reg_tr, meta = [], [], {}
+    nover = nheld = 0
+    try:
+        for rd in range(ctx.pick(120, 2000)):
+            root = ctx.tmpdir("c07p")
+            path = os.path.join(root, "protected")
+            init = 0
+            if rd % 4:
+                init = 1
+                with open(path, "wb") as f:
+                    f.write(_mp_content(1))
+            nxt = 10
+            args = []
+            for a in range(3):
+                script = []
+                for _ in range(ctx.pick(5, 6)):
+                    nxt += 1
+                    script.append((rng.choice(["commit", "commit", "abort", "read", "read"]), nxt))
+                args.append((path, script, rng.getrandbits(30)))
+            res = pool.round("lock", args)
+            recs = [r for rs in res for r in rs]
+            mp.rank_times(recs, keys=("c", "r"))
+            # hold stamps share the same clock: rank them together with c/r of the same records
+            stamps = sorted({x for r_ in recs for x in (r_["hs"], r_["he"]) if x})
+            # (ranks only need to preserve order among hold stamps)
+            rk = {t: i + 1 for i, t in enumerate(stamps)}
+            try:
+                with open(path, "rb") as f:
+                    final = _mp_classify(f.read())
+            except FileNotFoundError:
+                final = 0
+            locks = [f for f in os.listdir(root) if f.endswith(".lock")]
+            shutil.rmtree(root, ignore_errors=True)
+            tid = rd + 1
+            holds = [{"a": r_["a"], "s": rk[r_["hs"]], "e": rk[r_["he"]]} for r_ in recs if r_["hs"] and r_["he"]]
+            nheld += len(holds)
+            holds_tr.append({"tid": tid, "holds": holds})
+            ops = []
+            for r_ in sorted(recs, key=lambda x: x["c"]):
+                if r_["op"] == "read":
+                    ops.append({"k": "read", "n": 1, "via": 0, "old": 0, "new": 0, "res": r_["res"], "exc": False, "c": r_["c"], "r": r_["r"]})
+                elif r_["op"] == "commit" and not r_["exc"]:
+                    ops.append({"k": "set_if_equals", "n": 1, "via": 0, "old": -1, "new": r_["v"], "res": 1, "exc": False, "c": r_["c"], "r": r_["r"]})
+                else:       # aborted, or the lock was not obtained: must have no effect
+                    ops.append({"k": "other", "n": 1, "via": 0, "old": 0, "new": 0, "res": 0, "exc": True, "c": r_["c"], "r": r_["r"]})
+            reg_tr.append({"tid": tid, "init": [init], "final": [final], "hinit": 1, "hfinal": 1, "ops": ops, "commits": [], "tip": 0})
+            meta[tid] = {"recs": [(r_["a"], r_["op"], r_["v"], r_["res"], r_.get("excname"), r_["c"], r_["r"]) for r_ in recs], "final": final, "init": init}
+            ctx.count()
+            if sum(1 for r_ in recs if r_.get("excname") == "FileLocked"):
+                nover += 1
+                ctx.nontrivial(("mplock", rd))
+            if locks:
+                ctx.violation("dulwich/file.py:_GitFile|ReleasedAtExit|real processes", f"lock file left behind after all processes returned: {locks}",
+                              {"meta": meta[tid]})
+    finally:
+        pool.close()
+    d = ctx.tmpdir("lockhist")
+    hp, rp = os.path.join(d, "holds.ndjson"), os.path.join(d, "reg.ndjson")
+    with open(hp, "w") as f:
+        for t in holds_tr:
+            f.write(json.dumps(t, separators=(",", ":")) + "\n")
+    with open(rp, "w") as f:
+        for t in reg_tr:
+            f.write(json.dumps(t, separators=(",", ":")) + "\n")
+    res = tlc.run("LockHist.tla", "LockHist.cfg", workers=1, timeout=1200, env={"TRACE_FILE": hp})
+    ctx.add_tlc("LockHist (Mutex on hold intervals of real processes)", res, require_ok=False)
+    got = {v[1]: v[2] for v in tlc.extract_printed(res.output, "LOCKHIST")}
+    if not res.completed or len(got) != len(holds_tr):
+        raise MachineryError(f"LockHist judged {len(got)}/{len(holds_tr)} rounds\n{res.output[-2000:]}")
+    for t in holds_tr:
+        if got[t["tid"]]:
+            ctx.violation("dulwich/file.py:_GitFile|Mutex|real processes",
+                          f"two processes owned the lock at the same time: hold intervals {sorted(got[t['tid']])} of {t['holds']}",
+                          {"trace": t, "meta": meta[t["tid"]]})
+    res = tlc.run("RefsLin.tla", "RefsLin.cfg", workers=1, timeout=3000, env={"TRACE_FILE": rp})
+    ctx.add_tlc("RefsLin (protected file as an atomic register, real processes)", res, require_ok=False)
+    if not res.completed:
+        raise MachineryError("RefsLin did not complete on the lock histories\n" + res.output[-2000:])
+    okids = {v[1] for v in tlc.extract_printed(res.output, "LIN") if v[2] == "strict"}
+    for t in reg_tr:
+        if t["tid"] not in okids:
+            torn = any(o["k"] == "read" and o["res"] == -3 for o in t["ops"]) or t["final"] == [-3]
+            ctx.violation(f"dulwich/file.py:_GitFile|{'AtomicReplace' if torn else 'NotARegister'}|real processes",
+                          ("a reader saw a content that is neither a complete old nor a complete new one" if torn else
+                           "contents read / left behind are not explained by the committed writes in any order consistent with real time")
+                          + f": {meta[t['tid']]}", {"trace": t, "meta": meta[t["tid"]]})
+    # binding control: two overlapping holds of different processes must be flagged
+    ctlp = os.path.join(d, "ctl.ndjson")
+    with open(ctlp, "w") as f:
+        f.write(json.dumps({"tid": 1, "holds": [{"a": 0, "s": 1, "e": 4}, {"a": 1, "s": 3, "e": 6}, {"a": 0, "s": 7, "e": 8}]}) + "\n")
+    res = tlc.run("LockHist.tla", "LockHist.cfg", workers=1, timeout=300, env={"TRACE_FILE": ctlp})
+    ctl = {v[1]: v[2] for v in tlc.extract_printed(res.output, "LOCKHIST")}
+    if not ctl.get(1):
+        raise MachineryError("binding control failed: overlapping holds accepted by LockHist")
+    ctx.validated(len(holds_tr))
+    ctx.cov["real_process_rounds"] = {"rounds": len(holds_tr), "lock_acquisitions": nheld, "rounds_with_contention": nover}
+    ctx.log(f"real processes: {len(holds_tr)} rounds, {nheld} acquisitions, {nover} rounds with a refused acquisition")
+    shutil.rmtree(d, ignore_errors=True)
+
+
 def run(ctx):
     # 1. the model itself
     res = tlc.run("LockFile.tla", "LockFile_mc.cfg", workers=16, timeout=900, coverage=not ctx.quick)
@@ -943,12 +1116,14 @@ def run(ctx):
     n = validate_batch(ctx, alltr, "all", allmeta)
     ctx.validated(n)
     binding_controls(ctx, alltr)
+    mode_processes(ctx)
     ctx.cov["rule"] = ("executions of the real _GitFile / lock-protocol callers: (a) one per TLC state-graph behaviour needed to cover "
                        "every transition, (b) every schedule with a bounded number of preemptions for a menu of writer programs, "
                        "(c) every fault position x error kind; distinct = distinct (scenario, event sequence); all are non-trivial "
                        "(each takes the lock at least once)")
     ctx.assumptions += ["POSIX semantics of O_EXCL/rename/unlink as in LockFile.tla (exercised on the real kernel in every run)",
-                        "actors are greenlets with private handles; only the file system is shared",
+                        "scheduled actors are greenlets with private handles; only the file system is shared; the real-process rounds use "
+                        "forked processes and CLOCK_MONOTONIC intervals that lie inside (holds) / around (operations) the true ones",
                         "lock released 'at exit' is judged when the operation returns or its exception reaches the caller, before any finalizer has run; a failing unlink of the lock file itself is not injected"]
     return ctx.finish(exhaustive=False)
 
